@@ -62,6 +62,12 @@ def instantiate(ob):
     for kind, t in ob.skolems:
         if kind == "ref":
             by_kind.setdefault("cfg", {})[str(t)] = t
+    # terms introduced by the schemas themselves (a Skolem function applied to an instantiation term), one round
+    for sch in ob.schemas:
+        if getattr(sch, "derive", None) is not None:
+            for t in list(by_kind.get(sch.kind, {}).values()):
+                for kind2, t2 in sch.derive(t):
+                    by_kind.setdefault(kind2, {})[str(t2)] = t2
     out = []
     for sch in ob.schemas:
         for t in by_kind.get(sch.kind, {}).values():
